@@ -1,8 +1,437 @@
-import H3.Model.PrefixInt
-import H3.Model.Huffman
+import H3.Lemmas.PrefixInt
+import H3.Lemmas.HuffTables
 import H3.Model.PrefixString
-import H3.Spec.Huffman
-/-! # C15 — QPACK prefixed integers and Huffman string literals (work in progress) -/
+/-! # C15 — QPACK prefixed integers and Huffman string literals
+
+Property theorems only.  Models: `H3.PrefixInt` (`qpack/prefix_int.rs`), `H3.Huffman`
+(`qpack/prefix_string/{decode,encode,bitwin}.rs`, tables regenerated from the sources into
+`H3.Gen.HuffDec`/`H3.Gen.HuffEnc`), `H3.PrefixString` (`qpack/prefix_string/mod.rs`).
+Specification: `H3.Spec.Huffman` (RFC 7541 §5.2 + Appendix B as 257 code lengths), `rfcDecode`
+(RFC 7541 §5.1).
+
+D-15 (recorded, not repaired).  `check_eof` judges only the bits after the last level boundary of
+the decode tree, so the decoder accepts endings RFC 7541 §5.2 forbids.  The model keeps that
+behaviour and flags it (`Huffman.lax`, second component of `hdecodeX`); the strictness half of the
+property is therefore proved as `C15_huffman_accepts_exactly_partial`, the full statement
+
+    theorem C15_huffman_accepts_exactly (b s : List Nat) (hb : ∀ x ∈ b, x < 256) :
+        Huffman.hdecode b = .ok s ↔ Spec.Huffman.specDecode b = some s
+
+is FALSE for the code that exists (`C15_huffman_D15_witnesses`).  What is missing from it is
+exactly the hypothesis `Huffman.lax b = false` in the direction `⇒`. -/
 namespace H3.Props.C15
+open H3.PrefixInt
+
+/-! ## prefixed integers -/
+
+
+/-- Round trip for every prefix size 1..8, any flags that fit, any value the decoder's range holds
+    (contains every value < 2^62), any following bytes; no panic; output is bytes. -/
+theorem C15_prefix_int_roundtrip (n flags v : Nat) (hn1 : 1 ≤ n) (hn8 : n ≤ 8)
+    (hf : flags < 2 ^ (8 - n)) (hv : v - (2 ^ n - 1) < 2 ^ 63) (rest : List Nat) :
+    encode? n flags v = some (encode n flags v) ∧
+    (∀ b ∈ encode n flags v, b < 256) ∧
+    decode? n (encode n flags v ++ rest) = some (.ok flags v rest) ∧
+    decode n (encode n flags v ++ rest) = .ok flags v rest := by
+  have hd := decode?_encode n flags v hn1 hn8 hf hv rest
+  refine ⟨?_, encode_bytes n flags v hn8 hf, hd, decode_of_decode? hd⟩
+  rw [encode_eq n flags v hn8 hf, encode?_eq n flags v hn8 hf]
+
+example : encode 5 3 1337 = [127, 154, 10] ∧
+    decode 5 (encode 5 3 1337 ++ [7, 200]) = .ok 3 1337 [7, 200] := by
+  simp [encode, encode?, encLoop, decode, decode?, decLoop, H3.Gen.PrefixInt.MAX_POWER]
+example : decode 8 (encode 8 0 (2 ^ 63 + 254) ++ [7]) = .ok 0 (2 ^ 63 + 254) [7] :=
+  (C15_prefix_int_roundtrip 8 0 (2 ^ 63 + 254) (by decide) (by decide) (by decide) (by decide)
+    [7]).2.2.2
+
+/-- Values beyond the decoder's range: the encoder's own output is REJECTED with overflow (never
+    altered).  (Holds for every natural `v`, in particular for every `u64`.) -/
+theorem C15_prefix_int_encoder_beyond_range (n flags v : Nat) (hn1 : 1 ≤ n) (hn8 : n ≤ 8)
+    (hf : flags < 2 ^ (8 - n)) (hv : 2 ^ 63 ≤ v - (2 ^ n - 1)) (rest : List Nat) :
+    decode? n (encode n flags v ++ rest) = some .overflow ∧
+    decode n (encode n flags v ++ rest) = .overflow := by
+  have hd := decode?_encode_beyond n flags v hn1 hn8 hf hv rest
+  exact ⟨hd, decode_of_decode? hd⟩
+
+example : encode 8 0 (2 ^ 63 + 255) = [255, 128, 128, 128, 128, 128, 128, 128, 128, 128, 1] ∧
+    decode 8 (encode 8 0 (2 ^ 63 + 255) ++ [7]) = .overflow := by
+  simp [encode, encode?, encLoop, decode, decode?, decLoop, H3.Gen.PrefixInt.MAX_POWER]
+
+/-- No panic: for a prefix size in 1..8 `decode` is the function computed by `decode?`. -/
+theorem C15_prefix_int_no_panic (n : Nat) (hn1 : 1 ≤ n) (hn8 : n ≤ 8) (bs : List Nat)
+    (hwf : ∀ b ∈ bs, b < 256) :
+    decode? n bs = some (decode n bs) := by
+  cases bs with
+  | nil => rw [decode_nil n hn8, decode?_nil n hn8]
+  | cons first r =>
+    have h := decode?_cons n first r hn1 hn8 (hwf first (List.mem_cons_self ..))
+    rw [decode_of_decode? h, h]
+
+example : decode? 3 [7, 128, 1] = some (.ok 0 135 []) := by decide
+
+/-- An `ok` result is the mathematical RFC 7541 §5.1 value, below 2^64 (no wrap of the `u64`
+    accumulator), at most `2^n - 1 + 2^63 - 1`, with the RFC's rest and the flag bits. -/
+theorem C15_prefix_int_ok_sound (n : Nat) (hn1 : 1 ≤ n) (hn8 : n ≤ 8) (bs : List Nat)
+    (hwf : ∀ b ∈ bs, b < 256) (f v : Nat) (rest : List Nat) (h : decode n bs = .ok f v rest) :
+    rfcDecode n bs = some (v, rest) ∧ v < 2 ^ 64 ∧ v - (2 ^ n - 1) < 2 ^ 63 ∧
+    ∃ first r, bs = first :: r ∧ f = first / 2 ^ n := by
+  have h256 := two_pow_le_256 hn8
+  have hpos := Nat.two_pow_pos n
+  cases bs with
+  | nil => rw [decode_nil n hn8] at h; cases h
+  | cons first r =>
+    have hb : first < 256 := hwf first (List.mem_cons_self ..)
+    have hwf' : ∀ x ∈ r, x < 256 := fun x hx => hwf x (List.mem_cons_of_mem _ hx)
+    by_cases hs : first % 2 ^ n < 2 ^ n - 1
+    · rw [decode_cons_unsat n first r hn1 hn8 hb hs] at h
+      injection h with h1 h2 h3
+      subst h1 h2 h3
+      have h63 : (0 : Nat) < 2 ^ 63 := Nat.two_pow_pos 63
+      refine ⟨rfcDecode_cons_unsat n first r hs, ?_, by omega, first, r, rfl, rfl⟩
+      have : (256 : Nat) < 2 ^ 64 := by decide
+      omega
+    · rw [decode_cons_sat n first r hn1 hn8 hb hs] at h
+      obtain ⟨hf, c, hc, hv, hlt⟩ :=
+        decLoop_ok_sound _ r 9 0 _ f v rest hwf' rfl (by decide) h
+      simp only [Nat.mul_zero, Nat.pow_zero, Nat.mul_one] at hv
+      rw [← pow_63] at hlt
+      subst hv
+      refine ⟨rfcDecode_cons_sat_some n first r hs c rest hc, ?_, by omega, first, r, rfl, hf⟩
+      have : (2 : Nat) ^ 64 = 2 ^ 63 + 2 ^ 63 := by decide
+      have : (256 : Nat) < 2 ^ 63 := by decide
+      omega
+
+example : decode 3 [0xAF, 0xFF, 0x00, 9] = .ok 21 134 [9] ∧
+    rfcDecode 3 [0xAF, 0xFF, 0x00, 9] = some (134, [9]) := by decide
+
+/-- `UnexpectedEnd` exactly when a byte is missing: the input is empty, or the prefix is saturated
+    and the input ends before a terminating continuation byte and before nine continuation bytes
+    with the top bit set were seen. -/
+theorem C15_prefix_int_endOf_iff (n : Nat) (hn1 : 1 ≤ n) (hn8 : n ≤ 8) (bs : List Nat)
+    (hwf : ∀ b ∈ bs, b < 256) :
+    (decode n bs = .endOf ↔
+      bs = [] ∨ ∃ first r, bs = first :: r ∧ first % 2 ^ n = 2 ^ n - 1 ∧ r.length < 9 ∧
+        ∀ b ∈ r, 128 ≤ b) ∧
+    (decode n bs = .endOf ↔ rfcDecode n bs = none ∧ contLen bs.tail < 9) := by
+  have hpos := Nat.two_pow_pos n
+  cases bs with
+  | nil => simp [decode_nil n hn8, rfcDecode_nil, contLen]
+  | cons first r =>
+    have hb : first < 256 := hwf first (List.mem_cons_self ..)
+    have hwf' : ∀ x ∈ r, x < 256 := fun x hx => hwf x (List.mem_cons_of_mem _ hx)
+    have hmod : first % 2 ^ n < 2 ^ n := Nat.mod_lt _ hpos
+    by_cases hs : first % 2 ^ n < 2 ^ n - 1
+    · rw [decode_cons_unsat n first r hn1 hn8 hb hs, rfcDecode_cons_unsat n first r hs]
+      refine ⟨⟨fun h => (by cases h), ?_⟩, ⟨fun h => (by cases h), fun h => (by cases h.1)⟩⟩
+      rintro (h | ⟨a, l, h, h', _⟩)
+      · cases h
+      · injection h with h1 h2; subst h1; omega
+    · rw [decode_cons_sat n first r hn1 hn8 hb hs, decLoop_endOf_iff _ r 0 _ hwf' (by decide)]
+      refine ⟨⟨fun ⟨h1, h2⟩ => Or.inr ⟨first, r, rfl, by omega, by omega, h2⟩, ?_⟩, ?_⟩
+      · rintro (h | ⟨a, l, h, _, h1, h2⟩)
+        · cases h
+        · injection h with h3 h4; subst h3 h4; exact ⟨by omega, h2⟩
+      · rw [List.tail_cons]
+        constructor
+        · intro ⟨h1, h2⟩
+          refine ⟨rfcDecode_cons_sat_none n first r hs ((rfcCont_none_iff r).mpr h2), ?_⟩
+          rw [contLen_of_all_ge r h2]; omega
+        · intro ⟨h1, h2⟩
+          cases hc : rfcCont r with
+          | some p => rw [rfcDecode_cons_sat_some n first r hs p.1 p.2 hc] at h1; cases h1
+          | none =>
+            have hall := (rfcCont_none_iff r).mp hc
+            rw [contLen_of_all_ge r hall] at h2
+            exact ⟨by omega, hall⟩
+
+example : decode 3 [7, 128, 128, 128, 128, 128, 128, 128, 128] = .endOf ∧
+    decode 3 [6] = .ok 0 6 [] := by decide
+
+/-- `Overflow` exactly when the prefix is saturated and the first nine continuation bytes all have
+    the top bit set. -/
+theorem C15_prefix_int_overflow_iff (n : Nat) (hn1 : 1 ≤ n) (hn8 : n ≤ 8) (bs : List Nat)
+    (hwf : ∀ b ∈ bs, b < 256) :
+    (decode n bs = .overflow ↔
+      ∃ first r, bs = first :: r ∧ first % 2 ^ n = 2 ^ n - 1 ∧ 9 ≤ r.length ∧
+        ∀ b ∈ r.take 9, 128 ≤ b) := by
+  have hpos := Nat.two_pow_pos n
+  cases bs with
+  | nil =>
+    rw [decode_nil n hn8]
+    exact ⟨fun h => (by cases h), fun ⟨_, _, h, _⟩ => (by cases h)⟩
+  | cons first r =>
+    have hb : first < 256 := hwf first (List.mem_cons_self ..)
+    have hwf' : ∀ x ∈ r, x < 256 := fun x hx => hwf x (List.mem_cons_of_mem _ hx)
+    have hmod : first % 2 ^ n < 2 ^ n := Nat.mod_lt _ hpos
+    by_cases hs : first % 2 ^ n < 2 ^ n - 1
+    · rw [decode_cons_unsat n first r hn1 hn8 hb hs]
+      refine ⟨fun h => (by cases h), ?_⟩
+      rintro ⟨a, l, h, h', _⟩
+      injection h with h1 h2; subst h1; omega
+    · rw [decode_cons_sat n first r hn1 hn8 hb hs,
+        decLoop_overflow_iff _ r 9 0 _ hwf' rfl (by decide)]
+      refine ⟨fun ⟨h1, h2⟩ => ⟨first, r, rfl, by omega, h1, h2⟩, ?_⟩
+      rintro ⟨a, l, h, _, h1, h2⟩
+      injection h with h3 h4; subst h3 h4; exact ⟨h1, h2⟩
+
+example : decode 3 [7, 128, 128, 128, 128, 128, 128, 128, 128, 128, 1] = .overflow ∧
+    decode 3 [7, 128, 128, 128, 128, 128, 128, 128, 128, 1] = .ok 0 72057594037927943 [] := by
+  decide
+
+/-- Completeness: an RFC value whose prefix is not saturated, or whose encoding has at most nine
+    continuation bytes (this covers every value below `2^n - 1 + 2^63` in its shortest encoding),
+    is decoded, with the RFC's rest. -/
+theorem C15_prefix_int_complete (n : Nat) (hn1 : 1 ≤ n) (hn8 : n ≤ 8) (bs : List Nat)
+    (hwf : ∀ b ∈ bs, b < 256) (v : Nat) (rest : List Nat)
+    (h : rfcDecode n bs = some (v, rest)) (hlen : v < 2 ^ n - 1 ∨ contLen bs.tail ≤ 9) :
+    ∃ first r, bs = first :: r ∧ decode n bs = .ok (first / 2 ^ n) v rest := by
+  cases bs with
+  | nil => rw [rfcDecode_nil] at h; cases h
+  | cons first r =>
+    have hb : first < 256 := hwf first (List.mem_cons_self ..)
+    have hwf' : ∀ x ∈ r, x < 256 := fun x hx => hwf x (List.mem_cons_of_mem _ hx)
+    refine ⟨first, r, rfl, ?_⟩
+    by_cases hs : first % 2 ^ n < 2 ^ n - 1
+    · rw [rfcDecode_cons_unsat n first r hs] at h
+      injection h with h; injection h with h1 h2; subst h1 h2
+      exact decode_cons_unsat n first r hn1 hn8 hb hs
+    · cases hc : rfcCont r with
+      | none => rw [rfcDecode_cons_sat_none n first r hs hc] at h; cases h
+      | some p =>
+        obtain ⟨c, rest'⟩ := p
+        rw [rfcDecode_cons_sat_some n first r hs c rest' hc] at h
+        injection h with h; injection h with h1 h2; subst h1 h2
+        have hlen' : contLen r ≤ 9 := by
+          rcases hlen with hlen | hlen
+          · omega
+          · exact hlen
+        rw [decode_cons_sat n first r hn1 hn8 hb hs,
+          decLoop_complete _ r 0 _ c _ hwf' hc (by omega)]
+        simp only [Nat.mul_zero, Nat.pow_zero, Nat.mul_one]
+
+example : rfcDecode 5 [31, 154, 10, 4] = some (1337, [4]) ∧ contLen [154, 10, 4] = 2 ∧
+    decode 5 [31, 154, 10, 4] = .ok 0 1337 [4] := by decide
+
+/-- Decoding never wraps: on EVERY byte string (bytes < 256), for every prefix size 1..8 -/
+theorem C15_prefix_int_no_wrap (n : Nat) (hn1 : 1 ≤ n) (hn8 : n ≤ 8) (bs : List Nat)
+    (hwf : ∀ b ∈ bs, b < 256) :
+    decode? n bs = some (decode n bs) ∧                                   -- no panic
+    -- an ok result is the mathematical RFC 7541 §5.1 value, below 2^64, with the RFC's rest and
+    -- the flag bits
+    (∀ f v rest, decode n bs = .ok f v rest →
+        rfcDecode n bs = some (v, rest) ∧ v < 2 ^ 64 ∧ v - (2 ^ n - 1) < 2 ^ 63 ∧
+        ∃ first r, bs = first :: r ∧ f = first / 2 ^ n) ∧
+    -- a missing byte gives endOf, and only that
+    (decode n bs = .endOf ↔
+      (rfcDecode n bs = none ∧
+        (bs = [] ∨ contLen bs.tail < 9 ∨ bs.head! % 2 ^ n < 2 ^ n - 1))) ∧
+    -- overflow exactly when the prefix is saturated and the first nine continuation bytes all
+    -- have the top bit set
+    (decode n bs = .overflow ↔
+        ∃ first r, bs = first :: r ∧ first % 2 ^ n = 2 ^ n - 1 ∧ 9 ≤ r.length ∧
+          ∀ b ∈ r.take 9, 128 ≤ b) ∧
+    -- completeness: an RFC value whose encoding has at most nine continuation bytes is decoded
+    (∀ v rest, rfcDecode n bs = some (v, rest) → contLen bs.tail ≤ 9 →
+        ∃ first r, bs = first :: r ∧ decode n bs = .ok (first / 2 ^ n) v rest) := by
+  refine ⟨C15_prefix_int_no_panic n hn1 hn8 bs hwf,
+    fun f v rest h => C15_prefix_int_ok_sound n hn1 hn8 bs hwf f v rest h, ?_,
+    C15_prefix_int_overflow_iff n hn1 hn8 bs hwf,
+    fun v rest h hl => C15_prefix_int_complete n hn1 hn8 bs hwf v rest h (Or.inr hl)⟩
+  rw [(C15_prefix_int_endOf_iff n hn1 hn8 bs hwf).2]
+  constructor
+  · exact fun ⟨h1, h2⟩ => ⟨h1, Or.inr (Or.inl h2)⟩
+  · rintro ⟨h1, h2 | h2 | h2⟩
+    · subst h2; exact ⟨h1, by simp [contLen]⟩
+    · exact ⟨h1, h2⟩
+    · cases bs with
+      | nil => exact ⟨h1, by simp [contLen]⟩
+      | cons first r =>
+        have h2' : first % 2 ^ n < 2 ^ n - 1 := h2
+        rw [rfcDecode_cons_unsat n first r h2'] at h1; cases h1
+
+example : decode 6 [63, 255, 255, 255, 255, 255, 255, 255, 255, 127, 42]
+      = .ok 0 (2 ^ 6 - 1 + (2 ^ 63 - 1)) [42] ∧
+    decode 6 [63, 255, 255, 255, 255, 255, 255, 255, 255, 255, 0] = .overflow ∧
+    decode 6 [63, 255, 255] = .endOf := by decide
+
+
+/-! ## Huffman -/
+
+open H3.Bits H3.Spec.Huffman in
+/-- The three tables agree.  (a) The root-to-symbol paths of the generated decode tree, in table
+    order, are exactly the canonical code words of the RFC's 256 byte lengths in canonical order
+    (so every byte has one path and EOS has none); (b) the generated encode table's row of every
+    byte — as (bit count, value) and in the byte-parts form `put` uses — is that code word;
+    (c) walking a byte's code word down the tree yields the byte; (d) the hand-typed lengths are
+    257 numbers in 5..30 satisfying Kraft's equality (the code is complete), and EOS is thirty ones. -/
+theorem C15_huffman_tables_agree :
+    Huffman.pathsL H3.Gen.HuffDec.root = codes.take 256 ∧
+    (∀ c < 256, Huffman.codeT c = codeOf c) ∧
+    (∀ c < 256, Huffman.rowOK c = true) ∧
+    (∀ s < 256, Huffman.walkL H3.Gen.HuffDec.root (codeOf s) = .sym s []) ∧
+    codeLengths.length = 257 ∧ (∀ l ∈ codeLengths, 5 ≤ l ∧ l ≤ 30) ∧
+    (codeLengths.map fun l => 2 ^ (30 - l)).sum = 2 ^ 30 ∧
+    codeOf 256 = List.replicate 30 true ∧
+    H3.Gen.HuffDec.levelCount = 89 :=
+  ⟨Huffman.root_paths_eq, Huffman.codeT_eq_codeOf, Huffman.rows_ok, Huffman.root_walk_code,
+    by decide +kernel, by decide +kernel, by decide +kernel, codeOf_eos, rfl⟩
+
+-- RFC 7541 Appendix C.4.1 / C.4.2 / C.6.1: www.example.com, no-cache, custom-key, custom-value
+example : Huffman.hencode? [119, 119, 119, 46, 101, 120, 97, 109, 112, 108, 101, 46, 99, 111, 109] =
+    some [0xf1, 0xe3, 0xc2, 0xe5, 0xf2, 0x3a, 0x6b, 0xa0, 0xab, 0x90, 0xf4, 0xff] := by decide +kernel
+example : Spec.Huffman.specEncode [119, 119, 119, 46, 101, 120, 97, 109, 112, 108, 101, 46, 99, 111, 109] =
+    [0xf1, 0xe3, 0xc2, 0xe5, 0xf2, 0x3a, 0x6b, 0xa0, 0xab, 0x90, 0xf4, 0xff] := by decide +kernel
+example : Spec.Huffman.specEncode [110, 111, 45, 99, 97, 99, 104, 101] = [0xa8, 0xeb, 0x10, 0x64, 0x9c, 0xbf] := by
+  decide +kernel
+example : Spec.Huffman.specEncode [99, 117, 115, 116, 111, 109, 45, 107, 101, 121] =
+    [0x25, 0xa8, 0x49, 0xe9, 0x5b, 0xa9, 0x7d, 0x7f] := by decide +kernel
+example : Spec.Huffman.specEncode [99, 117, 115, 116, 111, 109, 45, 118, 97, 108, 117, 101] =
+    [0x25, 0xa8, 0x49, 0xe9, 0x5b, 0xb8, 0xe8, 0xb4, 0xbf] := by decide +kernel
+example : Huffman.hdecode [0xa8, 0xeb, 0x10, 0x64, 0x9c, 0xbf] = .ok [110, 111, 45, 99, 97, 99, 104, 101] := by
+  decide +kernel
+example : Spec.Huffman.specDecode [0x25, 0xa8, 0x49, 0xe9, 0x5b, 0xa9, 0x7d, 0x7f] =
+    some [99, 117, 115, 116, 111, 109, 45, 107, 101, 121] := by decide +kernel
+
+/-- Round trip for every byte string: the encoder does not panic, its output is the RFC 7541 §5.2
+    encoding (the code words concatenated, filled up with ones to the byte boundary — `specEncode s
+    = pack (enc s)`), consists of bytes, and the decoder returns `s` from it through the strict
+    branch (no reliance on D-15). -/
+theorem C15_huffman_roundtrip (s : List Nat) (hs : ∀ x ∈ s, x < 256) :
+    Huffman.hencode? s = some (Huffman.hencode s) ∧
+    Huffman.hencode s = Spec.Huffman.specEncode s ∧
+    H3.Bits.bitsOf (Huffman.hencode s) = Spec.Huffman.enc s ++
+      List.replicate ((8 - (Spec.Huffman.enc s).length % 8) % 8) true ∧
+    (∀ b ∈ Huffman.hencode s, b < 256) ∧
+    Huffman.hdecodeX (Huffman.hencode s) = .ok (s, false) ∧
+    Huffman.hdecode (Huffman.hencode s) = .ok s ∧
+    Huffman.lax (Huffman.hencode s) = false := by
+  have hx := Huffman.hdecodeX_hencode s hs
+  refine ⟨?_, Huffman.hencode_spec s hs, ?_, ?_, hx, ?_, ?_⟩
+  · rw [Huffman.hencode?_eq s hs, Huffman.hencode_eq s hs]
+  · rw [Huffman.hencode_spec s hs, Spec.Huffman.specEncode, H3.Bits.bitsOf_pack]
+  · rw [Huffman.hencode_eq s hs]; exact H3.Bits.pack_lt _
+  · simp [Huffman.hdecode, hx]
+  · simp [Huffman.lax, hx]
+
+example : Huffman.hencode [0, 255, 97] = [255, 199, 255, 255, 220, 63] ∧
+    Huffman.hdecode [255, 199, 255, 255, 220, 63] = .ok [0, 255, 97] := by decide +kernel
+
+/-- Strictness, as far as it holds for the code that exists.  For every byte string `b`:
+    whatever RFC 7541 §5.2 allows is accepted with the same bytes, through the strict branch;
+    an acceptance through the strict branch (`lax = false`) is allowed by the RFC, with the same
+    bytes; an acceptance through the lax branch (`lax = true`, site D-15) is always a string the
+    RFC forbids; the model's loop bound is never reached.  `Huffman.lax b` is computable. -/
+theorem C15_huffman_accepts_exactly_partial (b : List Nat) (hb : ∀ x ∈ b, x < 256) (s : List Nat) :
+    (Spec.Huffman.specDecode b = some s → Huffman.hdecodeX b = .ok (s, false)) ∧
+    (Huffman.hdecodeX b = .ok (s, false) → Spec.Huffman.specDecode b = some s) ∧
+    (Huffman.hdecodeX b = .ok (s, true) → Spec.Huffman.specDecode b = none) ∧
+    (Spec.Huffman.specDecode b = some s → Huffman.hdecode b = .ok s ∧ Huffman.lax b = false) ∧
+    (Huffman.hdecode b = .ok s → Huffman.lax b = false → Spec.Huffman.specDecode b = some s) ∧
+    Huffman.hdecodeX b ≠ .error .fuel := by
+  have hfwd : Spec.Huffman.specDecode b = some s → Huffman.hdecodeX b = .ok (s, false) := by
+    intro h
+    obtain ⟨hs, pad, hbits, hp⟩ := (Spec.Huffman.specDecode_iff b s).mp h
+    exact Huffman.hdecodeX_complete b hb s pad hs hbits hp
+  have hbwd : ∀ s', Huffman.hdecodeX b = .ok (s', false) → Spec.Huffman.specDecode b = some s' := by
+    intro s' h
+    obtain ⟨hs, tail, hbits, hl⟩ := Huffman.hdecodeX_sound b hb s' false h
+    refine (Spec.Huffman.specDecode_iff b s').mpr ⟨hs, tail, hbits, ?_⟩
+    cases hv : Spec.Huffman.validPad tail
+    · rw [hv] at hl; cases hl
+    · rfl
+  refine ⟨hfwd, hbwd s, ?_, ?_, ?_, Huffman.hdecodeX_ne_fuel b hb⟩
+  · intro h
+    cases hsp : Spec.Huffman.specDecode b with
+    | none => rfl
+    | some s' =>
+      have hfwd' : Huffman.hdecodeX b = .ok (s', false) := by
+        obtain ⟨hs, pad, hbits, hp⟩ := (Spec.Huffman.specDecode_iff b s').mp hsp
+        exact Huffman.hdecodeX_complete b hb s' pad hs hbits hp
+      rw [h] at hfwd'; cases hfwd'
+  · intro h
+    have := hfwd h
+    simp [Huffman.hdecode, Huffman.lax, this]
+  · intro h hl
+    cases hx : Huffman.hdecodeX b with
+    | error e => simp [Huffman.hdecode, hx] at h
+    | ok v =>
+      obtain ⟨r, l⟩ := v
+      simp only [Huffman.hdecode, hx, Except.ok.injEq] at h
+      simp only [Huffman.lax, hx] at hl
+      subst h hl
+      exact hbwd r hx
+
+example : Spec.Huffman.specDecode [0x18, 0xff] = some [97, 97] ∧
+    Huffman.hdecodeX [0x18, 0xff] = .ok ([97, 97], false) := by decide +kernel
+
+/-- The full-strength strictness statement is false for the code that exists: the three D-15
+    witnesses (and `fe`: padding with a zero bit) are accepted by the decoder, through the flagged
+    branch, and forbidden by RFC 7541 §5.2 — eight bits of padding; the EOS symbol; padding
+    `101111` that is not a prefix of EOS. -/
+theorem C15_huffman_D15_witnesses :
+    Huffman.hdecode [0xff] = .ok [] ∧ Huffman.lax [0xff] = true ∧
+      Spec.Huffman.specDecode [0xff] = none ∧
+    Huffman.hdecode [0xff, 0xff, 0xff, 0xff] = .ok [] ∧ Huffman.lax [0xff, 0xff, 0xff, 0xff] = true ∧
+      Spec.Huffman.specDecode [0xff, 0xff, 0xff, 0xff] = none ∧
+    Huffman.hdecode [0x18, 0xef] = .ok [97, 97] ∧ Huffman.lax [0x18, 0xef] = true ∧
+      Spec.Huffman.specDecode [0x18, 0xef] = none ∧
+    Huffman.hdecode [0xfe] = .ok [] ∧ Spec.Huffman.specDecode [0xfe] = none ∧
+    ¬ (∀ b s : List Nat, (∀ x ∈ b, x < 256) →
+        (Huffman.hdecode b = .ok s ↔ Spec.Huffman.specDecode b = some s)) := by
+  have h1 : Huffman.hdecode [0xff] = .ok [] := by decide +kernel
+  have h2 : Spec.Huffman.specDecode [0xff] = none := by decide +kernel
+  refine ⟨h1, by decide +kernel, h2, by decide +kernel, by decide +kernel, by decide +kernel,
+    by decide +kernel, by decide +kernel, by decide +kernel, by decide +kernel, by decide +kernel, ?_⟩
+  intro h
+  have := (h [0xff] [] (by decide)).mp h1
+  rw [h2] at this; cases this
+
+/-! ## string literals -/
+
+private theorem lor_one (f : Nat) (hf : f < 128) : (f * 2) % 256 ||| 1 = 2 * f + 1 := by
+  have h : (f * 2) % 256 = f <<< 1 := by rw [Nat.shiftLeft_eq]; omega
+  rw [h, ← Nat.shiftLeft_add_eq_or_of_lt (by decide : 1 < 2 ^ 1), Nat.shiftLeft_eq]; omega
+
+/-- String literals round-trip for every size that has room for the `H` flag (2..8; the code
+    uses 4, 6 and 8), any flags that fit, any byte string, any following bytes: no panic; the wire
+    form is the prefixed integer `(H = 1, length)` followed by the RFC 7541 §5.2 Huffman encoding;
+    decoding returns the flags, the string and the rest.  (`hlen`: a `Vec` is shorter than 2^63.) -/
+theorem C15_string_literal_roundtrip (n flags : Nat) (hn2 : 2 ≤ n) (hn8 : n ≤ 8)
+    (hf : flags < 2 ^ (8 - n)) (s : List Nat) (hs : ∀ x ∈ s, x < 256)
+    (hlen : (Huffman.hencode s).length < 2 ^ 63) (rest : List Nat) :
+    PrefixString.encode? n flags s = some (PrefixString.encode n flags s) ∧
+    PrefixString.encode n flags s =
+      PrefixInt.encode (n - 1) (2 * flags + 1) (Huffman.hencode s).length ++ Huffman.hencode s ∧
+    PrefixString.decode? n (PrefixString.encode n flags s ++ rest) = some (.ok flags s rest) ∧
+    PrefixString.decode n (PrefixString.encode n flags s ++ rest) = .ok flags s rest := by
+  obtain ⟨he, _, _, _, _, hd, _⟩ := C15_huffman_roundtrip s hs
+  have hn0 : n ≠ 0 := by omega
+  have hf128 : flags < 128 := by
+    have : (2 : Nat) ^ (8 - n) ≤ 2 ^ 7 := Nat.pow_le_pow_right (by decide) (by omega)
+    omega
+  have hf' : 2 * flags + 1 < 2 ^ (8 - (n - 1)) := by
+    have : 8 - (n - 1) = (8 - n) + 1 := by omega
+    rw [this, Nat.pow_succ]; omega
+  obtain ⟨hi1, _, hi3, _⟩ := C15_prefix_int_roundtrip (n - 1) (2 * flags + 1)
+    (Huffman.hencode s).length (by omega) (by omega) hf' (by omega) (Huffman.hencode s ++ rest)
+  have henc : PrefixString.encode? n flags s =
+      some (PrefixInt.encode (n - 1) (2 * flags + 1) (Huffman.hencode s).length ++ Huffman.hencode s) := by
+    simp only [PrefixString.encode?, he, if_neg hn0, lor_one flags hf128, hi1]
+  have henc' : PrefixString.encode n flags s =
+      PrefixInt.encode (n - 1) (2 * flags + 1) (Huffman.hencode s).length ++ Huffman.hencode s := by
+    simp [PrefixString.encode, henc]
+  have hdec : PrefixString.decode? n (PrefixString.encode n flags s ++ rest) = some (.ok flags s rest) := by
+    rw [henc', List.append_assoc]
+    simp only [PrefixString.decode?, if_neg hn0, hi3, PrefixString.decodePayload]
+    rw [if_neg (by simp)]
+    have h2 : (2 * flags + 1) % 2 ≠ 0 := by omega
+    rw [if_neg h2]
+    simp only [List.take_left', List.drop_left', hd]
+    congr 2; omega
+  refine ⟨by rw [henc, henc'], henc', hdec, by simp [PrefixString.decode, hdec]⟩
+
+example : PrefixString.encode 6 1 [110, 97, 109, 101] = [0x63, 0xa8, 0x74, 0x97] ∧
+    PrefixString.decode 6 (PrefixString.encode 6 1 [110, 97, 109, 101] ++ [9]) = .ok 1 [110, 97, 109, 101] [9] := by
+  decide +kernel
 
 end H3.Props.C15
